@@ -250,8 +250,9 @@ def run(ctx):
         _, dn = count_programs(progs)
         total += n
         distinct += dn
-        ls = lib.read_lines(trace)
-        s, e = lib.run_of_line(ls, min(len(ls), 3000 if family == "seq" else 9000))
+        with open(trace) as f:
+            ls = [x.rstrip("\n") for _, x in zip(range(12000), f)]
+        s, e = lib.run_of_line(ls, min(len(ls) - 50, 3000 if family == "seq" else 9000))
         ctx.cov["samples"].append({"source": f"MC_Blte family={family}", "trace": [json.loads(x) for x in ls[s:e]]})
         del ls
         judge_trace(ctx, trace, f"MC_Blte family={family} depth={depth}", kd)
